@@ -2,6 +2,7 @@ import KvarnModel.Drv.C19
 import KvarnModel.Drv.C09
 import KvarnModel.Drv.C12
 import KvarnModel.Drv.C18
+import KvarnModel.Drv.C16
 /-!
 Line-protocol driver: `<group>.<fn> <arg> …` per line on stdin, one canonical line on stdout.
 Unknown or ill-formed lines answer `bad-op` — never a default.
@@ -17,6 +18,7 @@ def dispatchLine (line : String) : String :=
       | ["c09", f] => Drv.C09.handle (f :: args)
       | ["c12", f] => Drv.C12.handle (f :: args)
       | ["c18", f] => Drv.C18.handle (f :: args)
+      | ["c16", f] => Drv.C16.handle (f :: args)
       | _ => none
     r.getD "bad-op"
 
